@@ -36,6 +36,7 @@ type E1Stats struct {
 	Outcomes    map[string]int
 	Harness     []string
 	Inconclusive int
+	Reps        [][]ops.Op // one representative history per expanded state (including the initial state)
 }
 
 // ExploreE1 runs the breadth-first search. deadline.IsZero() = no budget.
@@ -70,6 +71,7 @@ func ExploreE1(p *pool.Pool, spec E1Spec, rep *Report, deadline time.Time) E1Sta
 			}
 		})
 	}
+	st.Reps = append(st.Reps, frontier...)
 	for depth := 1; depth <= spec.Depth && len(frontier) > 0; depth++ {
 		if !deadline.IsZero() && time.Now().After(deadline) {
 			st.Exhaustive = false
@@ -155,6 +157,7 @@ func ExploreE1(p *pool.Pool, spec E1Spec, rep *Report, deadline time.Time) E1Sta
 		}
 		st.MaxDepth = depth
 		frontier = next
+		st.Reps = append(st.Reps, next...)
 		if len(jobs) > 0 {
 			rep.AddSample(map[string]interface{}{"exploration": spec.Name, "config": spec.Cfg.String(), "history": ops.HistString(jobs[len(jobs)/2].(*E1Job).Hist)})
 		}
